@@ -19,7 +19,7 @@ RULE = (
     "2 / 2.0 / True / np.int64(2); ellipsis sizes as list / tuple / array; 0-d tensors as ndarray / Python scalar / numpy "
     "scalar / tensor factory; adapter options 1 / 1.0 / True), graph=True requests, solve_axes/solve_shapes/matches on the same "
     "expressions, calls through einx.numpy adapters, failing variants (syntax error, wrong rank, wrong size, brackets where "
-    "not allowed, unsupported backend, raising / mis-shaped tensor factory) and nested 'with backend:' enter/exit steps; steps "
+    "not allowed, unsupported backend, raising / mis-shaped tensor factory), blocks of the same call with short-lived factories of three different signatures in one position, and nested 'with backend:' enter/exit steps; steps "
     "are repeated so that cache hits and twin collisions occur. The whole history runs in one forked interpreter; every step "
     "is also run alone in a pristine fork of a zygote that has imported einx but never called it (same with-stack). Oracle: "
     "equal outcome digests (shapes, values; code text up to variable naming; exception class), and after the history the "
@@ -109,6 +109,23 @@ def history_case(draw, tier="quick"):
         steps.append(step)
     for _ in range(depth):
         steps.append({"kind": "exit"})
+    if draw(st.integers(0, 2)) == 0:
+        # factory churn: the same call with short-lived factories of different signatures in one argument position
+        # (objects die between steps, so addresses are re-used; anything remembered per object identity goes stale)
+        cands = [s_ for s_ in steps if s_["kind"] == "call" and s_["entry"] == s_["case"]["op"] and not s_.get("desc_override") and not s_.get("corrupt_shape") and s_["argkinds"]]
+        if cands:
+            src = cands[draw(st.integers(0, len(cands) - 1))]
+            j = draw(st.integers(0, len(src["argkinds"]) - 1))
+            order = draw(st.permutations(["factory", "factory_name", "factory_kwargs"]))
+            block = []
+            for i in range(draw(st.integers(3, 6))):
+                c = copy.deepcopy(src)
+                c["graph"] = False
+                c["argkinds"] = ["nd" if k.startswith("factory") else k for k in c["argkinds"]]
+                c["argkinds"][j] = order[i % 3]
+                block.append(c)
+            pos = draw(st.integers(0, len(steps)))
+            steps = steps[:pos] + block + steps[pos:]
     if draw(st.integers(0, 2)) == 0:
         # re-entrant nesting "with A: with B: with A: ..." around calls that show the active backend in their text
         a, b = draw(st.permutations(BACKENDS))[:2]
